@@ -509,3 +509,122 @@ def rf38b(run):
                               % (imm & ((1 << 64) - 1), cn, got, '' if got else 'not ', cn, 'the low 32 bits only' if cn.endswith('S') else 'all 64 bits'),
                               line=r['line'])
                 return
+
+
+# ---------------------------------------------------------------------------------------------
+# RF39: no unchecked narrowing of a computed factor into a memory scale; RF40: nothing is inserted between an overflow
+# producer and the branch that reads its flags
+# ---------------------------------------------------------------------------------------------
+
+RF39_EXC = {('out_insn', 'mem.scale'): 'operand class "s" of the pattern matcher admits only the immediates 1, 2, 4, 8'}
+
+
+def rf39(run, units=('gen', 'c2mir')):
+    from rf_proto import dominating_conditions
+    rule = 'RF39'
+    run.rule(rule, 'a value of a wider integer type is converted to MIR_scale_t (8 bits) only where a test against MIR_MAX_SCALE (or an '
+                   'explicit small bound) selects the conversion: either the conversion is an arm of a ?: with such a test or the '
+                   'statement is dominated by one; otherwise a factor such as 258 silently becomes scale 2')
+    n = 0
+    for u in units:
+        tu = run.tu(u)
+        for f in tu.func_list:
+            if f.body is None:
+                continue
+            for x in f.walk():
+                if x['k'] not in ('BinaryOperator', 'CompoundAssignOperator') or x.get('op') not in ('=', '*=', '+='):
+                    continue
+                l = F.strip(x['c'][0])
+                if l['k'] != 'MemberExpr' or l['n'] != 'scale':
+                    continue
+                lt = tu.type(l)
+                if lt is None or lt.kind != 'int' or lt.w != 8:
+                    continue
+                r = x['c'][1]
+                if F.const_value(r) is not None:
+                    continue
+                # widest non-constant source feeding the store
+                wide = [y for y in F.walk(r) if y['k'] in ('DeclRefExpr', 'MemberExpr', 'CallExpr', 'ArraySubscriptExpr') and tu.type(y) is not None
+                        and tu.type(y).kind == 'int' and (tu.type(y).w or 0) > 8 and F.const_value(y) is None]
+                if not wide and x['op'] == '=':
+                    continue
+                n += 1
+                run.functions_analysed.add((u, f.name))
+                key = (f.name, F.src(l).split('->')[-1] if '->' in F.src(l) else F.src(l))
+                exc = RF39_EXC.get((f.name, F.src(l)))
+                cfg = f.cfg
+                b = cfg.block_of(x)
+                conds = [c for c, t in (dominating_conditions(cfg, b) if b is not None else [])]
+
+                def bounded(txt):
+                    import re as _re
+                    return 'MIR_MAX_SCALE' in txt or 'UINT8_MAX' in txt or _re.search(r'<=?\s*\(*\s*(255|256|8|9)\b', txt) is not None
+                guard = any(bounded(c) for c in conds)
+                rr = F.strip(r)
+                if rr['k'] == 'ConditionalOperator' and bounded(F.src(rr['c'][0])):
+                    guard = True
+                ok = guard or exc is not None
+                run.ob(rule, (u, f.name, x['l']), ok, {'site': '%s:%d %s' % (f.relfile(), x['l'], f.name), 'store': F.src(x)[:80],
+                                                      'guarded': guard, 'exception': exc})
+                if not ok:
+                    run.violation(rule, f, 'scale store %s' % F.src(x)[:60],
+                                  '%s stores a %d-bit value into the 8-bit scale of a memory operand without a range test: a factor '
+                                  'larger than 255 wraps (258 -> 2) and still looks like a legal scale' % (f.name, max((tu.type(y).w for y in wide), default=64)),
+                                  line=x['l'])
+    return n
+
+
+def rf40(run):
+    import rf_callmode as CM
+    rule = 'RF40'
+    run.rule(rule, 'gvn_modify: the branch that materialises a constant result (`x = …; x = const` added right after the instruction) is '
+                   'not taken for an overflow-flag producer that is followed by a branch on the flags: the added move can be emitted as '
+                   'a flag-changing instruction (xor for zero). Decided by evaluating the statements between the opcode switch and the '
+                   'test of const_p for every overflow producer with a reachable BO')
+    gen = run.tu('gen')
+    f = gen.func('gvn_modify')
+    run.functions_analysed.add(('gen', f.name))
+    preds = EF.Predicates(gen)
+    uni = frozenset(v for nm, v in gen.enum('MIR_insn_code_t'))
+    ovf = preds.true_set('MIR_overflow_insn_code_p', uni)
+    if not ovf:
+        raise F.AnalysisBroken('MIR_overflow_insn_code_p not evaluable')
+    site = None
+    for x in f.walk():
+        if x['k'] == 'IfStmt' and 'const_p' in F.src(x['c'][0]) and any(
+                y['k'] == 'CallExpr' and y.get('callee') == 'gen_add_insn_after' for y in F.walk(x['c'][1])):
+            site = x
+    if site is None:
+        raise F.AnalysisBroken('gvn_modify: the `if (const_p)` block that adds the constant move was not found')
+    comp = None
+    for a in f.ancestors(site):
+        if a['k'] == 'CompoundStmt':
+            comp = a
+            break
+    ks = F.kids(comp)
+    idx = [i for i, st in enumerate(ks) if st is site][0]
+    start = max([i for i, st in enumerate(ks[:idx]) if st['k'] == 'SwitchStmt'] or [-1]) + 1
+    between = ks[start:idx]
+    calls = {F.src(y) for st in between + [site] for y in F.walk(st if st is not site else site['c'][0]) if y['k'] == 'CallExpr' and y.get('callee') == 'reachable_bo_exists_p'}
+    ev = CM.TextEnv(gen)
+    names = {}
+    for nm, v in gen.enum('MIR_insn_code_t'):
+        names.setdefault(v, nm)
+    for v in sorted(ovf):
+        env = {'insn->code': v, 'const_p': 1}
+        for c in calls:
+            env[c] = 1
+        re_ = CM.RetEval(ev)
+        for st in between:
+            re_.run(st, env)
+        taken = ev.eval(site['c'][0], env, frozenset())
+        ok = taken is not None and not taken
+        run.ob(rule, (names[v],), ok, {'opcode': names[v], 'followed by a branch on the flags': True, 'constant move is added': taken})
+        if not ok:
+            if taken is None:
+                raise F.AnalysisBroken('gvn_modify: const_p not evaluable for %s' % names[v])
+            run.violation(rule, f, 'constant result of %s' % names[v],
+                          'for %s with constant operands followed by BO/BNO/UBO/UBNO gvn_modify adds `mov r, <const>` between the '
+                          'instruction and the branch; `mov r, 0` is encoded as xor and clears the flags the branch reads' % names[v], line=site['l'])
+            break
+    run.min_instances(rule, 6)
